@@ -205,9 +205,10 @@ def schemas(draw, depth=0, max_depth=3, nocase=False, allow_func=True, allow_ptr
         elif k == "func":
             opts.append(o_func(name))
         elif k == "ptr":
-            opts.append(o_ptr(name))
+            # a textual default is run through the parse callback when the option (or its section instance) is created
+            opts.append(dict(o_ptr(name), d=draw(st.sampled_from([None, None, "pdflt", "\"two words\""]))))
         elif k == "plist":
-            opts.append(o_ptr(name, F_LIST))
+            opts.append(dict(o_ptr(name, F_LIST), d=draw(st.sampled_from([None, None, "{x, y}", "{}"]))))
         else:
             sf = draw(st.sampled_from([0, 0, F_MULTI, F_MULTI | F_TITLE, F_MULTI | F_TITLE, F_MULTI | F_TITLE | F_NO_TITLE_DUPES,
                                        F_NODEFAULT, F_TITLE if allow_single_title else 0, F_KEYSTRVAL if allow_keystrval else 0,
